@@ -21,11 +21,14 @@ TR, AC, BL, UT = 'pytoniq_core.tlb.transaction', 'pytoniq_core.tlb.account', 'py
 WL, NF = 'pytoniq_core.tlb.custom.wallet', 'pytoniq_core.tlb.custom.nft'
 
 
-def _lib_obj(w, tname, targs, mod, cls, own, prof, rot, minimal=True):
+def _lib_obj(w, tname, targs, mod, cls, own, prof, rot, minimal=True, top_bit=False, general=None):
     """(library object, encoding CellBuf, schema value): the object comes from the library's own parser run on the schema
     encoding; the field-by-field agreement is claimed here as well (it is C16's obligation for the same function)"""
     pol = T.Policy(own=dict(own), prof=prof, rot=rot)
     pol.minimal = minimal
+    pol.general = general        # index of the one var-integer field left fully general when top_bit is on
+    pol.top_bit = top_bit        # amounts with their top bit set: one bit_length class per byte length (fewer paths); only
+                                 # where the VALUES are not the subject (room obligation: sizes matter)
     cur, v, g = T.generate(w, tname, targs, pol, cell_factory=lambda p: TC.leaf_cell(w, 'c:' + p))
     M = importlib.import_module(mod)
     cell = TC.build(w, cur.node())
@@ -38,6 +41,28 @@ def _lib_obj(w, tname, targs, mod, cls, own, prof, rot, minimal=True):
     TC.agree(cx, obj, v, cls)
     cx.flush()
     return obj, cur, v
+
+
+def _light_cell(w):
+    """callee contract of Cell(bits, refs, type_) as used by Builder.end_cell (proved in C01/C07): a cell holding exactly these
+    bits and references; its hash is an uninterpreted fresh value here (hashing is not this property's subject and its
+    padding arithmetic over a symbolic body length only multiplies paths)"""
+    from pytoniq_core.boc.cell import Cell
+    from pytoniq_core.boc.exotic import LevelMask
+    n = [0]
+
+    def mk(bits, refs, type_=-1):
+        c = Cell.__new__(Cell)
+        c.bits, c.refs, c.type_, c.is_exotic = bits, refs, type_, type_ != -1
+        c.level_mask = LevelMask(0)
+        n[0] += 1
+        c._hashes = [w.bytes(f'lighthash{n[0]}', 32)]
+        c._depths = [0]
+        c._hash = c._hashes[-1]
+        c._descriptors = None
+        c._data_bytes = None
+        return c
+    return mk
 
 
 # ---- header / state-init shapes ---------------------------------------------------------------------------------------
@@ -79,7 +104,7 @@ def _room_label(c):
 def room(w, h, init, brefs, shape):
     M = importlib.import_module(TR)
     hd = HEADERS[h]
-    info, icur, iv = _lib_obj(w, 'CommonMsgInfo', (), TR, 'CommonMsgInfo', hd['_own'], hd['_prof'], hd['_rot'])
+    info, icur, iv = _lib_obj(w, 'CommonMsgInfo', (), TR, 'CommonMsgInfo', hd['_own'], hd['_prof'], hd['_rot'], top_bit=True)
     if info is None:
         return
     sobj, scur = None, None
@@ -92,7 +117,8 @@ def room(w, h, init, brefs, shape):
     body._depths = [0]
     bbits = w.seq_of(body.bits)
     msg = M.MessageAny(info=info, init=sobj, body=body)
-    k, cell = call(msg.serialize)
+    with w.stub('pytoniq_core.boc.builder', 'Cell', _light_cell(w)):
+        k, cell = call(msg.serialize)
     hb = icur.bits.length()
     flags = 3 if sobj is not None else 2
     exists = hb + flags <= 1023
@@ -102,31 +128,59 @@ def room(w, h, init, brefs, shape):
     w.claim(f'serialising does not fail for lack of room ({type(cell).__name__ + ": " + str(cell) if k != "ok" else ""})', k == 'ok')
     if k != 'ok':
         return
-    # the valid encodings of this logical message
-    cands = []
-    for ip in ((None,) if sobj is None else (0, 1)):
-        for bp in (0, 1):
-            bits = icur.bits
-            refs = list(icur.refs)
-            if ip is None:
-                bits = bits + E.lit('0')
-            else:
-                bits = bits + E.lit('1') + E.lit(str(ip))
-                if ip == 0:
-                    bits = bits + scur.bits
-                    refs += list(scur.refs)
-                else:
-                    refs.append(scur.node())
-            bits = bits + E.lit(str(bp))
-            if bp == 0:
-                bits = bits + bbits
-                refs += [Raw(r) for r in body.refs]
-            else:
-                refs.append(Raw(body))
-            cands.append(Node(bits, refs))
-    w.claim('the cell is a valid block.tlb encoding of the same message (Either flags agree with the placement)',
-            w.Or(*[matches(w, cell, c) for c in cands]))
-    w.claim('within cell capacity', w.And(w.seq_of(cell.bits).length() <= 1023, len(cell.refs) <= 4))
+    # decode the produced cell under the schema: info ++ Maybe(Either StateInit ^StateInit) ++ Either(X ^X)
+    rs = w.seq_of(cell.bits)
+    refs = list(cell.refs)
+    w.claim('within cell capacity', w.And(rs.length() <= 1023, len(refs) <= 4))
+    head, rest = rs.take_front(hb)
+    w.claim('starts with the header encoding', w.eq_seq(head, icur.bits))
+    w.claim('header references first', len(refs) >= len(icur.refs) and w.And(*[matches(w, a, b) for a, b in zip(refs, icur.refs)]))
+    refs = refs[len(icur.refs):]
+
+    def cbit(sq):
+        sg = sq.segs
+        return sg[0].v if len(sg) == 1 and type(sg[0].v) is int else None
+    mb, rest = rest.take_front(1)
+    w.claim('init:(Maybe ...) flag says whether a state-init is present', cbit(mb) == (1 if sobj is not None else 0))
+    if sobj is not None and cbit(mb) == 1:
+        eb, rest = rest.take_front(1)
+        if cbit(eb) == 0:
+            w.cover('init inline')
+            ib, rest = rest.take_front(scur.bits.length())
+            w.claim('Either left: the state-init encoding follows inline', w.eq_seq(ib, scur.bits))
+            w.claim('Either left: its references follow', len(refs) >= len(scur.refs) and
+                    w.And(*[matches(w, a, b) for a, b in zip(refs, scur.refs)]))
+            refs = refs[len(scur.refs):]
+        elif cbit(eb) == 1:
+            w.cover('init by reference')
+            w.claim('Either right: the next reference holds the state-init encoding', len(refs) >= 1 and matches(w, refs[0], scur.node()))
+            refs = refs[1:]
+        else:
+            w.claim('Either flag of init is a definite bit', False)
+    bb, rest = rest.take_front(1)
+    if cbit(bb) == 0:
+        w.cover('body inline')
+        w.claim('Either left: the body bits follow inline and end the cell', w.eq_seq(rest, bbits))
+        w.claim('Either left: the body references end the cell', len(refs) == len(body.refs) and all(a is b for a, b in zip(refs, body.refs)))
+    elif cbit(bb) == 1:
+        w.cover('body by reference')
+        w.claim('Either right: nothing follows the flag', rest.length() == 0)
+        w.claim('Either right: the last reference is the body cell', len(refs) == 1 and refs[0] is body)
+    else:
+        w.claim('Either flag of the body is a definite bit', False)
+    # the library's own parser returns the same message from its own serialisation
+    k2, back = call(M.MessageAny.deserialize, cell.begin_parse())
+    w.claim(f'the serialised message parses back ({back if k2 != "ok" else ""})', k2 == 'ok')
+    if k2 == 'ok':
+        cx = TC.Ctx(w)
+        TC.agree(cx, back.info, iv, 'back.info')
+        if sobj is not None:
+            TC.agree(cx, back.init, sv, 'back.init')
+        else:
+            cx.claim('back.init absent', back.init is None)
+        cx.claim('back.body: same bits and references', hasattr(back.body, 'bits') and w.And(
+            w.eq_seq(w.seq_of(back.body.bits), bbits), len(back.body.refs) == len(body.refs) and all(a is b for a, b in zip(back.body.refs, body.refs))))
+        cx.flush()
 
 
 # ---- parse: every valid encoding ------------------------------------------------------------------------------------------
@@ -166,16 +220,6 @@ def parse(w, i, shape):
     cx = TC.Ctx(w)
     TC.agree(cx, got, v, 'message')
     cx.flush()
-    # re-serialising the parsed message gives again a valid encoding of the same message: parse it once more
-    k2, cell2 = call(got.serialize)
-    w.claim(f're-serialising the parsed message does not raise ({cell2 if k2 != "ok" else ""})', k2 == 'ok')
-    if k2 == 'ok':
-        k3, got2 = call(M.MessageAny.deserialize, cell2.begin_parse())
-        w.claim('the re-serialised message parses', k3 == 'ok')
-        if k3 == 'ok':
-            cx = TC.Ctx(w)
-            TC.agree(cx, got2, v, 'message(2)')
-            cx.flush()
 
 
 # ---- stand-alone wrappers ---------------------------------------------------------------------------------------------
@@ -194,6 +238,7 @@ WRAPPERS = [
     ('NftItemSaleFees', (), NF, 'NftItemSaleFees'),
     ('NftItemSaleData', (), NF, 'NftItemSaleData'),
 ]
+REPARSE = {'HighloadWalletData'}
 _WCASES = {}
 
 
@@ -213,7 +258,18 @@ def wcases(tname, targs):
             if k not in seen and T.fits(tname, targs, own[0], 1, r):
                 seen.add(k)
                 out.append({'own': own[0], 'prof': 1, 'rot': r})
-        _WCASES[(tname, targs)] = out
+        # types with more than two var-integer fields: all but ONE field carry amounts with the top bit of their byte length
+        # set (one bit_length class instead of eight); the general field rotates over the cases, every field is general in
+        # at least two cases per shape family
+        res = []
+        for i, c in enumerate(out):
+            nf = T.count_var_fields(tname, targs, c['own'])
+            if nf <= 2:
+                res.append(dict(c, general=None))
+            else:
+                res.append(dict(c, general=i % nf))
+                res.append(dict(c, general=(i + 1 + nf // 2) % nf))
+        _WCASES[(tname, targs)] = res
     return _WCASES[(tname, targs)]
 
 
@@ -221,20 +277,33 @@ def _mkw(tname, targs, mod, cls):
     cs = wcases(tname, targs)
 
     @obligation(f'C15.wrap.{cls}', 'C15',
-                cases=[{'i': i, 'shape': ','.join(f'{k.split(".", 1)[-1]}:{v}' for k, v in c['own'].items()) + f'|p{c["prof"]}r{c["rot"]}'}
-                       for i, c in enumerate(cs)],
+                cases=[{'i': i, 'shape': ','.join(f'{k.split(".", 1)[-1]}:{v}' for k, v in c['own'].items()) + f'|p{c["prof"]}r{c["rot"]}' +
+                        ('' if c['general'] is None else f'g{c["general"]}')} for i, c in enumerate(cs)],
                 fuc=[f'{mod}.{cls}.serialize', f'{mod}.{cls}.deserialize'],
                 descr=f'{cls}: deserialize agrees field by field with the schema encoding of every shape (fields symbolic, canonical '
                       f'var-integer lengths), and serialize(deserialize(e)) == e: serialize emits exactly the schema encoding of the '
                       f'value and the pair round-trips')
     def ob(w, i, shape, _t=tname, _a=targs, _m=mod, _c=cls):
         c = wcases(_t, _a)[i]
-        obj, cur, v = _lib_obj(w, _t, _a, _m, _c, c['own'], c['prof'], c['rot'], minimal=True)
+        obj, cur, v = _lib_obj(w, _t, _a, _m, _c, c['own'], c['prof'], c['rot'], minimal=True,
+                               top_bit=c['general'] is not None, general=c['general'])
         if obj is None:
             return
         k, cell = call(obj.serialize)
         w.claim(f'serialize does not raise ({type(cell).__name__ + ": " + str(cell)[:80] if k != "ok" else ""})', k == 'ok')
-        if k == 'ok':
+        if k != 'ok':
+            return
+        if _c in REPARSE:
+            # contains whole messages, whose placement (inline / by reference) the serialiser may choose differently from the
+            # given encoding: the re-serialised value must parse to the same value
+            M = importlib.import_module(_m)
+            k2, back = call(getattr(M, _c).deserialize, cell.begin_parse())
+            w.claim('deserialize(serialize(x)) succeeds', k2 == 'ok')
+            if k2 == 'ok':
+                cx = TC.Ctx(w)
+                TC.agree(cx, back, v, _c + '(2)')
+                cx.flush()
+        else:
             w.claim('serialize(deserialize(e)) is the schema encoding e', cell is not None and hasattr(cell, 'bits') and matches(w, cell, cur.node()))
     return ob
 
